@@ -53,7 +53,7 @@ QsOf(kind, q) == LET n == CASE kind = 0 -> 0 [] kind = 1 -> 1 [] kind \in {2, 3}
 \* three distinct pool indices derived from a salt
 QPick(salt) == << 1 + (salt % NQ), 1 + ((salt + 7) % NQ), 1 + ((salt + 13) % NQ) >>
 
-Fam == [nstate : Nat, nstream : {2, 3}, winset : 1..7, stage : 0..2, gv : BOOLEAN, shape : 0..5,
+Fam == [nstate : Nat, nstream : {2, 3}, winset : 1..8, stage : 0..2, gv : BOOLEAN, shape : 0..5,
         quoted : BOOLEAN, salt : Nat]
 
 \* window sets (coefficients in dyadics)
@@ -62,6 +62,7 @@ WDelta  == << <<-1, 1>>, <<0, 0>>, <<1, 1>> >>
 WAccel  == << <<1, 0>>, <<-2, 0>>, <<1, 0>> >>
 WDelta5 == << <<-1, 2>>, <<-1, 1>>, <<0, 0>>, <<1, 1>>, <<1, 2>> >>      \* width 5
 WAccel5 == << <<1, 2>>, <<0, 0>>, <<-1, 1>>, <<0, 0>>, <<1, 2>> >>
+WFwd == << <<0, 0>>, <<-1, 0>>, <<1, 0>> >>                                  \* "3 0 -1 1": c[t+1] - c[t]
 WStatic3 == << <<0, 0>>, <<1, 0>>, <<0, 0>> >>                            \* the same static window, declared with zero-weight neighbours
 \* the standard HTS five-frame regression windows, as decimal fractions (<<n, -e>> = n / 10^e)
 WDelta5d == << <<-2, -1>>, <<-1, -1>>, <<0, 0>>, <<1, -1>>, <<2, -1>> >>
@@ -71,6 +72,7 @@ WinSet(k) == CASE k = 1 -> << WStatic >> [] k = 2 -> << WStatic, WDelta >> [] k 
                [] k = 5 -> << WStatic3, WDelta >>
                [] k = 6 -> << WStatic, WDelta5d, WAccel5d >>
                [] k = 7 -> << WStatic, WDelta5, WAccel >>          \* the widest window is not the last one
+               [] k = 8 -> << WStatic3, WFwd, WAccel >>           \* zero taps at one end only: a forward difference
 
 \* ---- PDF words (all dyadic).  h mixes the indices into a small number.
 Mix(a, b, c, d) == (a * 7 + b * 13 + c * 5 + d * 3)
